@@ -35,50 +35,7 @@ GRAMMAR = ("core: types int int8 uint8 float64 string bool N(int) NS([]int) *int
            "not generated: methods, generics, structs, arrays, range, goto, fallthrough, min/max/clear, packages other than main")
 
 # Defects of scriggo demonstrated by this check on the unchanged tree (reported to the integrator; see the family report).
-PROPOSED_KNOWN = [
-    # -- accepts what the Go type checker rejects
-    {"kind": "known", "signature": {"fam": "types", "want": "reject", "rule": "operand is not ordered", "got": "ok", "e": ["bin", "*", "*", "va"]},
-     "what": "ordered comparison (< <= > >=) of an ordered operand with an interface operand is accepted, e.g. `vi < va` (va any); only the left "
-             "operand is tested with isOrdered (checker_expressions.go binaryOp)"},
-    {"kind": "known", "signature": {"fam": "types", "want": "reject", "rule": "assignment mismatch", "got": "ok", "e": ["rhs", "index", "vsl", "1"]},
-     "what": "two-value assignment/declaration from a slice index expression is accepted, e.g. `a, b := vsl[0]`: checker_assignment.go rebalances "
-             "every *ast.Index on the right as comma-ok, not only map indexes"},
-    {"kind": "known", "signature": {"fam": "types", "want": "reject", "rule": "assignment mismatch", "got": "hostpanic", "e": ["rhs", "index", "vs", "1"]},
-     "what": "same root cause with a string operand: `a, b := vs[0]` makes Build panic 'reflect: Elem of invalid type string'"},
-    {"kind": "known", "signature": {"fam": "types", "want": "reject", "rule": "impossible type switch case", "got": "ok"},
-     "what": "impossible type switch case is accepted: `switch ve.(type) { case int: }` with ve error (the type switch does not test that the case type implements the interface)"},
-    {"kind": "known", "signature": {"fam": "types", "want": "reject", "rule": "constant not representable", "got": "ok", "e": ["bin", "+", "1.5", "1"]},
-     "what": "a computed non-integer constant is accepted for an unsigned integer type, e.g. `var x uint8 = 1.5 + 1` (constant.go floatConst.representedBy "
-             "trusts big.Float.Uint64's accuracy, which is Exact for 2.5)"},
-    {"kind": "known", "signature": {"fam": "types", "want": "reject", "rule": "shift count not representable as uint", "got": "ok", "e": ["bin", "+", "1.5", "1"]},
-     "what": "same root cause: a non-integer constant shift count is accepted, e.g. `vi << (1.5 + 1)`"},
-    {"kind": "known", "signature": {"fam": "types", "want": "reject", "rule": "shifted operand must be integer", "got": "ok", "ctx": "index:sl", "e": ["bin", "*", "1.5", "*"]},
-     "what": "a non-integer untyped constant as left operand of a non-constant shift is accepted where the context gives it an integer type, e.g. `vsl[1.5 << vi]`"},
-    {"kind": "known", "signature": {"fam": "types", "grp": "selscope", "want": "reject", "rule": "no new variables on left side of :=", "got": "ok"},
-     "what": "a select clause body may redeclare the clause's receive variable: `select { case x := <-c: _ = x; x := 2; _ = x }` is accepted; the body is "
-             "checked in a scope nested in the clause scope (checker_statements.go *ast.Select: Enter(cas) followed by checkNodesInNewScope)"},
-    # -- rejects what the Go type checker accepts
-    {"kind": "known", "signature": {"fam": "types", "want": "accept", "got": "builderror", "e": ["bin", "/", "vf", "0"]},
-     "what": "division of a floating-point variable by the constant 0 is rejected ('division by zero'); the Go spec and go/types reject a zero constant divisor "
-             "only for integer operands (the repository's own tests expect this rejection: behaviour of gc before Go 1.17)"},
-    # -- a rejection (or an accepted program) makes Build panic instead of returning a *BuildError
-    {"kind": "known", "signature": {"fam": "types", "grp": "term", "want": "accept", "got": "hostpanic", "kinds": ["forL", "continueL"]},
-     "what": "`continue L` makes Build panic 'scriggo: internal error: not implemented' (emitter_statements.go: labeled continue is not implemented)"},
-    {"kind": "known", "signature": {"fam": "types", "grp": "term", "want": "accept", "got": "hostpanic", "kinds": ["if", "forL", "continueL"]},
-     "what": "`continue L` inside if: Build panics 'internal error: not implemented'"},
-    {"kind": "known", "signature": {"fam": "types", "grp": "term", "want": "accept", "got": "hostpanic", "kinds": ["for", "forL", "continueL"]},
-     "what": "`continue L` in nested loops: Build panics 'internal error: not implemented'"},
-    {"kind": "known", "signature": {"fam": "types", "grp": "term", "want": "accept", "got": "hostpanic", "kinds": ["if", "for", "forL", "continueL"]},
-     "what": "`continue L` in nested loops inside if: Build panics 'internal error: not implemented'"},
-    {"kind": "known", "signature": {"fam": "types", "want": "reject", "got": "hostpanic", "e": ["assert", "*", "*", ""], "ctx": "addr"},
-     "what": "`&x.(T)` makes Build panic 'unexpected operand': a type assertion inherits the addressability of its operand (checker_expressions.go *ast.TypeAssertion)"},
-    {"kind": "known", "signature": {"fam": "types", "want": "reject", "got": "hostpanic", "e": ["assert", "*", "*", ""], "ctx": "lhs"},
-     "what": "same root cause: `x.(T) = 1` makes Build panic 'internal error: unexpected'"},
-    {"kind": "known", "signature": {"fam": "types", "want": "reject", "got": "hostpanic", "e": ["assert", "*", "*", ""], "ctx": "incdec"},
-     "what": "same root cause: `x.(T)++` makes Build panic 'internal error: unexpected'"},
-    {"kind": "known", "signature": {"fam": "types", "want": "reject", "got": "hostpanic", "ctx": "for", "e": ["leaf", "", "nil", ""]},
-     "what": "`for nil {}` makes Build panic with a nil pointer dereference (checker_statements.go *ast.For reads ti.Type.Kind() of untyped nil)"},
-]
+PROPOSED_KNOWN = []   # eight of the ten root causes found by this check were fixed in /repo; `vf / 0` (pinned by the repository's own tests) and labelled continue stay known findings (known-findings.json)
 
 
 def mc_invs(ctx):
